@@ -164,7 +164,7 @@ Proof. split; [vm_compute; discriminate | vm_compute; reflexivity]. Qed.
 Definition w_invalid_number_argument : list str := [[37;100]; [97;98;99]].
 Lemma refuted_invalid_number_argument : printf_builtin w_invalid_number_argument <> BOut [48] 1 /\ (fun a => spec_printf (hd [] a) (tl a)) w_invalid_number_argument = None.
 Proof. split; [vm_compute; discriminate | vm_compute; reflexivity]. Qed.
-(* printf '%d' "'a"  -> bash: '97' status 0 *)
+(* printf '%d' DQUOTE'aDQUOTE  -> bash: '97' status 0 *)
 Definition w_char_constant_argument : list str := [[37;100]; [39;97]].
 Lemma refuted_char_constant_argument : printf_builtin w_char_constant_argument <> BOut [57;55] 0 /\ (fun a => spec_printf (hd [] a) (tl a)) w_char_constant_argument = None.
 Proof. split; [vm_compute; discriminate | vm_compute; reflexivity]. Qed.
@@ -200,7 +200,7 @@ Proof. split; [vm_compute; discriminate | vm_compute; reflexivity]. Qed.
 Definition w_b_backslash_c : list str := [[37;98]; [97;92;99;98]; [120]].
 Lemma refuted_b_backslash_c : printf_builtin w_b_backslash_c <> BOut [97] 0 /\ (fun a => spec_printf (hd [] a) (tl a)) w_b_backslash_c = None.
 Proof. split; [vm_compute; discriminate | vm_compute; reflexivity]. Qed.
-(* printf '%b' "\\'"  -> bash: "\\'" status 0 *)
+(* printf '%b' DQUOTE\\'DQUOTE  -> bash: DQUOTE\\'DQUOTE status 0 *)
 Definition w_b_quote_escape : list str := [[37;98]; [92;39]].
 Lemma refuted_b_quote_escape : printf_builtin w_b_quote_escape <> BOut [92;39] 0 /\ (fun a => spec_printf (hd [] a) (tl a)) w_b_quote_escape = None.
 Proof. split; [vm_compute; discriminate | vm_compute; reflexivity]. Qed.
@@ -400,7 +400,7 @@ Proof.
   exfalso. revert L. apply loop_no_oof; [discriminate | lia].
 Qed.
 
-(* Format("%b", [arg]) *)
+(* Format(DQUOTE%bDQUOTE, [arg]) *)
 Lemma format_pct_b : forall arg o, format_b arg = Done o None -> format [PCT; 98] (Some [arg]) = FOk o 1.
 Proof.
   intros arg o H. unfold format, format_into. simpl length.
@@ -450,3 +450,448 @@ Proof.
   destruct (spec_echo_join ex rest) as [o|] eqn:EJ; [|discriminate].
   inversion H; subst. rewrite (echo_join_spec ex rest o nl EJ true). reflexivity.
 Qed.
+
+(* ------------------------------------------------------------------ directives *)
+Lemma dec_facts : forall c, is_dec c = true ->
+  (c =? BSL) = false /\ (c =? PCT) = false /\ (c =? 99) = false /\ ((c =? 43) || (c =? 45) || (c =? 32)) = false.
+Proof. intros c H; unfold is_dec, in_rng, BSL, PCT in *; lia. Qed.
+
+Lemma nonempty_app_r : forall (A : Type) (l : list A) x, nonempty (l ++ [x]) = true.
+Proof. intros A l x; destruct l; reflexivity. Qed.
+
+Definition mkf (m p s z : bool) : gflags := {| g_minus := m; g_plus := p; g_space := s; g_zero := z |}.
+
+Lemma go_flags_zeros : forall zs ws m p s z, forallb (fun c => c =? 48) zs = true ->
+  go_flags (zs ++ ws) (mkf m p s z) = go_flags ws (mkf m p s (z || nonempty zs)).
+Proof.
+  induction zs as [|c zs IH]; intros ws m p s z H; simpl in *.
+  - rewrite orb_false_r. reflexivity.
+  - apply andb_prop in H as [Hc H]. rewrite Hc. unfold mkf in *. cbn [g_minus g_plus g_space g_zero].
+    rewrite (IH ws m p s true H). rewrite orb_true_r. reflexivity.
+Qed.
+
+Lemma go_flags_stop : forall ws f, match ws with [] => True | c :: _ => is_dec c = true /\ (c =? 48) = false end ->
+  go_flags ws f = (f, ws).
+Proof.
+  intros [|c t] f H; [reflexivity|]. destruct H as [D Z]. simpl. rewrite Z.
+  assert ((c =? 43) = false /\ (c =? 45) = false /\ (c =? 32) = false) as (A & B & C)
+    by (unfold is_dec, in_rng in D; lia).
+  rewrite A, B, C. reflexivity.
+Qed.
+
+Fixpoint grow (k : nat) (B : N) : N := match k with O => B | S k => grow k (B * 10) end.
+Lemma grow_ge : forall k B, B <= grow k B.
+Proof. induction k; intro B; simpl; [lia|]. specialize (IHk (B * 10)). lia. Qed.
+
+Lemma parsenum_ok : forall ws num b B, forallb is_dec ws = true -> num < B -> grow (length ws) B <= 10000000 ->
+  go_parsenum ws num b = Some (fold_left (fun n c => n * 10 + digit_val c) ws num, b || nonempty ws, []).
+Proof.
+  induction ws as [|c ws IH]; intros num b B H L G; simpl in *.
+  - rewrite orb_false_r. reflexivity.
+  - apply andb_prop in H as [Hc H]. rewrite Hc.
+    pose proof (grow_ge (length ws) (B * 10)).
+    assert (E : (1000000 <? num) = false) by lia. rewrite E.
+    assert (DV : digit_val c = c - 48) by (unfold digit_val; unfold is_dec in Hc; rewrite Hc; reflexivity).
+    rewrite DV. rewrite (IH (num * 10 + (c - 48)) true (B * 10) H); [rewrite orb_true_r; reflexivity| |exact G].
+    unfold is_dec, in_rng in Hc. lia.
+Qed.
+
+Lemma parsenum_width : forall ws, forallb is_dec ws = true -> (length ws <= 7)%nat ->
+  go_parsenum ws 0 false = Some (parse_base 10 ws, nonempty ws, []).
+Proof.
+  intros ws H L. unfold parse_base. rewrite (parsenum_ok ws 0 false 1 H); [reflexivity | lia |].
+  remember (length ws) as k. clear - L.
+  do 8 (destruct k as [|k]; [vm_compute; discriminate|]). lia.
+Qed.
+
+Lemma rep_0 : forall b, rep b 0 = [].
+Proof. reflexivity. Qed.
+
+Lemma rune_count_ascii : forall s, is_ascii s = true -> rune_count s = len s.
+Proof.
+  unfold rune_count, len. induction s as [|c t IH]; intro H; [reflexivity|].
+  simpl in H. apply andb_prop in H as [Hc H].
+  cbn [rune_count_aux]. unfold rune_size.
+  assert (E : (c <? 194) = true) by lia. rewrite E. simpl Nat.pred. rewrite (IH H).
+  cbn [length]. lia.
+Qed.
+
+Lemma rune_count_1 : forall b, rune_count [b] = 1.
+Proof.
+  intro b. unfold rune_count. cbn [rune_count_aux]. unfold rune_size.
+  repeat match goal with |- context [if ?c then _ else _] => destruct c end; reflexivity.
+Qed.
+
+Lemma pad_eq : forall minus zero W widp s count, (widp = false -> W = 0) ->
+  (zero && negb minus && (0 <? W)) = false -> ((0 <? W) = true -> count = len s) ->
+  go_pad minus zero W widp s count = spec_pad minus W s.
+Proof.
+  intros minus zero W widp s count HW HZ HR. unfold go_pad, spec_pad.
+  destruct (negb widp || (W =? 0)) eqn:E.
+  - assert (W = 0) by (destruct widp; [simpl in E; lia | auto]). subst W. simpl. rewrite !rep_0.
+    destruct minus; [rewrite app_nil_r|]; reflexivity.
+  - assert (P : (zero && negb minus) = false) by (destruct zero, minus; simpl in *; try reflexivity; lia).
+    rewrite P. rewrite HR by lia. destruct minus; reflexivity.
+Qed.
+
+Definition flags_of (d : dirv) : gflags := mkf (d_minus d) (d_plus d) (d_space d) (d_zero d).
+
+(* what spec_directive accepts, decomposed *)
+Lemma spec_directive_shape : forall t d r, spec_directive t = Some (IDir d, r) ->
+  exists fl zs ws cv,
+    t = fl ++ zs ++ ws ++ cv :: r /\
+    (fl = [] \/ (exists f, fl = [f] /\ ((f =? 43) || (f =? 45) || (f =? 32)) = true)) /\
+    forallb (fun c => c =? 48) zs = true /\ forallb is_dec ws = true /\ (length ws <= 7)%nat /\
+    match ws with [] => True | c :: _ => (c =? 48) = false end /\
+    conv_of cv = Some (d_conv d) /\
+    go_flags (fl ++ zs ++ ws) g0 = (flags_of d, ws) /\
+    d_width d = parse_base 10 ws.
+Proof.
+  intros t d r H. unfold spec_directive in H. destruct t as [|c t0]; [discriminate|].
+  destruct (c =? PCT) eqn:EP; [inversion H|].
+  destruct ((c =? 43) || (c =? 45) || (c =? 32)) eqn:EF.
+  - destruct (span_max (length t0) (fun c => c =? 48) t0) as [zs s2] eqn:SZ.
+    destruct (span_max (length s2) is_dec s2) as [ws s3] eqn:SW.
+    destruct (7 <? length ws)%nat eqn:L7; [discriminate|].
+    destruct s3 as [|cv r']; [discriminate|].
+    destruct (conv_of cv) as [k|] eqn:CK; [|discriminate]. inversion H; subst; clear H.
+    pose proof (span_max_maximal _ _ _ _ _ SZ (le_n _)) as MZ.
+    apply span_max_spec in SZ as (Z1 & Z2 & _). apply span_max_spec in SW as (W1 & W2 & _).
+    subst t0 s2. exists [c], zs, ws, cv. cbn [d_conv d_width].
+    assert (HW : match ws with [] => True | c0 :: _ => (c0 =? 48) = false end).
+    { destruct ws; [exact I|]. simpl in MZ. exact MZ. }
+    repeat split; auto.
+    + right. exists c. split; auto.
+    + apply Nat.ltb_ge in L7. exact L7.
+    + simpl app. unfold g0. fold (mkf false false false false).
+      assert (G1 : go_flags (c :: zs ++ ws) (mkf false false false false)
+                   = go_flags (zs ++ ws) (mkf (c =? 45) (c =? 43) (c =? 32) false)).
+      { simpl. assert ((c =? 48) = false) by lia. rewrite H.
+        destruct (c =? 43) eqn:A; [assert ((c =? 45) = false) by lia; assert ((c =? 32) = false) by lia; rewrite H0, H1; reflexivity|].
+        destruct (c =? 45) eqn:B; [assert ((c =? 32) = false) by lia; rewrite H0; reflexivity|].
+        destruct (c =? 32) eqn:C; [reflexivity|]. simpl in EF. discriminate. }
+      rewrite G1, (go_flags_zeros zs ws _ _ _ _ Z2). simpl orb.
+      rewrite go_flags_stop; [reflexivity|]. destruct ws; [exact I|]. simpl in W2. apply andb_prop in W2 as [W2 _]. split; auto.
+  - destruct (span_max (length (c :: t0)) (fun c => c =? 48) (c :: t0)) as [zs s2] eqn:SZ.
+    destruct (span_max (length s2) is_dec s2) as [ws s3] eqn:SW.
+    destruct (7 <? length ws)%nat eqn:L7; [discriminate|].
+    destruct s3 as [|cv r']; [discriminate|].
+    destruct (conv_of cv) as [k|] eqn:CK; [|discriminate]. inversion H; subst; clear H.
+    pose proof (span_max_maximal _ _ _ _ _ SZ (le_n _)) as MZ.
+    apply span_max_spec in SZ as (Z1 & Z2 & _). apply span_max_spec in SW as (W1 & W2 & _).
+    subst s2. exists [], zs, ws, cv. cbn [d_conv d_width]. simpl app.
+    assert (HW : match ws with [] => True | c0 :: _ => (c0 =? 48) = false end).
+    { destruct ws; [exact I|]. simpl in MZ. exact MZ. }
+    repeat split; auto.
+    + apply Nat.ltb_ge in L7. exact L7.
+    + unfold g0. fold (mkf false false false false). rewrite (go_flags_zeros zs ws _ _ _ _ Z2). simpl orb.
+      rewrite go_flags_stop; [unfold flags_of; cbn; repeat rewrite N.eqb_refl; reflexivity|].
+      destruct ws; [exact I|]. simpl in W2. apply andb_prop in W2 as [W2 _]. split; auto.
+Qed.
+
+Lemma spec_directive_lit : forall t bs r, spec_directive t = Some (ILit bs, r) -> t = PCT :: r /\ bs = [PCT].
+Proof.
+  intros t bs r H. unfold spec_directive in H. destruct t as [|c t0]; [discriminate|].
+  destruct (c =? PCT) eqn:EP.
+  - apply N.eqb_eq in EP. inversion H; subst. split; reflexivity.
+  - exfalso.
+    destruct ((c =? 43) || (c =? 45) || (c =? 32));
+    match type of H with context [span_max ?k ?p ?s] => destruct (span_max k p s) as [zs s2] end;
+    destruct (span_max (length s2) is_dec s2) as [ws s3];
+    destruct (7 <? length ws)%nat; try discriminate;
+    destruct s3 as [|cv r']; try discriminate;
+    destruct (conv_of cv); discriminate.
+Qed.
+
+Lemma take_arg_spec : forall args,
+  take_arg (Some args) = Some (match args with a :: t => (a, Some t) | [] => ([], Some []) end).
+Proof. intros [|a t]; reflexivity. Qed.
+
+Section DirSim.
+  Variable brec : str -> outcome.
+
+  Lemma digits_step : forall ds pb tail fmts args fuel, nonempty fmts = true -> forallb is_dec ds = true ->
+    exists fuel', loop brec fuel pb (ds ++ tail) fmts args = OutOfFuel \/
+                  loop brec fuel pb (ds ++ tail) fmts args = loop brec fuel' pb tail (fmts ++ ds) args.
+  Proof.
+    induction ds as [|c ds IH]; intros pb tail fmts args fuel NF H.
+    - exists fuel. right. rewrite app_nil_r. reflexivity.
+    - destruct fuel; [exists 0%nat; left; reflexivity|].
+      simpl in H. apply andb_prop in H as [Hc Hds]. destruct (dec_facts c Hc) as (A & B & C & D).
+      simpl app. cbn [loop]. rewrite A, NF, B, C, D, Hc.
+      destruct (IH pb tail (fmts ++ [c]) args fuel (nonempty_app_r _ _ _) Hds) as [f' X].
+      exists f'. rewrite <- app_assoc in X. exact X.
+  Qed.
+
+  Lemma pct_start : forall fuel t args,
+    loop brec (S fuel) false (PCT :: t) [] (Some args) = loop brec fuel false t [PCT] (Some args).
+  Proof.
+    intros. cbn [loop]. change (PCT =? BSL) with false. cbv iota. cbn [nonempty andb]. cbv iota.
+    change (PCT =? PCT) with true. reflexivity.
+  Qed.
+
+  Lemma flag_step : forall fuel f t args, ((f =? 43) || (f =? 45) || (f =? 32)) = true ->
+    loop brec (S fuel) false (f :: t) [PCT] args = loop brec fuel false t [PCT; f] args.
+  Proof.
+    intros fuel f t args H. cbn [loop].
+    assert ((f =? BSL) = false /\ (f =? PCT) = false /\ (f =? 99) = false) as (A & B & C) by (unfold BSL, PCT; lia).
+    rewrite A. cbn [nonempty]. cbv iota. rewrite B, C, H. reflexivity.
+  Qed.
+
+  (* from '%' to the conversion character *)
+  Lemma dir_prefix : forall fl zs ws tail args,
+    (fl = [] \/ (exists f, fl = [f] /\ ((f =? 43) || (f =? 45) || (f =? 32)) = true)) ->
+    forallb (fun c => c =? 48) zs = true -> forallb is_dec ws = true ->
+    forall fuel, exists fuel',
+      loop brec fuel false (PCT :: fl ++ zs ++ ws ++ tail) [] (Some args) = OutOfFuel \/
+      loop brec fuel false (PCT :: fl ++ zs ++ ws ++ tail) [] (Some args)
+        = loop brec fuel' false tail (PCT :: fl ++ zs ++ ws) (Some args).
+  Proof.
+    intros fl zs ws tail args HF HZ HW fuel.
+    assert (HD : forallb is_dec (zs ++ ws) = true).
+    { rewrite forallb_app, HW, andb_true_r. rewrite forallb_forall in *. intros x Hx. apply HZ in Hx.
+      apply N.eqb_eq in Hx; subst; reflexivity. }
+    destruct fuel; [exists 0%nat; left; reflexivity|]. rewrite pct_start.
+    destruct HF as [->|[f [-> Hf]]]; simpl app.
+    - destruct (digits_step (zs ++ ws) false tail [PCT] (Some args) fuel eq_refl HD) as [f' X].
+      exists f'. rewrite <- app_assoc in X. exact X.
+    - destruct fuel; [exists 0%nat; left; reflexivity|]. rewrite (flag_step _ _ _ _ Hf).
+      destruct (digits_step (zs ++ ws) false tail [PCT; f] (Some args) fuel eq_refl HD) as [f' X].
+      exists f'. rewrite <- app_assoc in X. exact X.
+  Qed.
+
+  Lemma conv_step_s : forall fuel r fmts args, nonempty fmts = true ->
+    loop brec (S fuel) false (115 :: r) fmts args =
+    match take_arg args with
+    | None => GoPanic
+    | Some (arg, args') =>
+        match go_fprintf (tl fmts) 115 (VStr arg) with
+        | None => Unmodelled
+        | Some o => emit o (loop brec fuel false r [] args')
+        end
+    end.
+  Proof.
+    intros fuel r fmts args NF. cbn [loop]. change (115 =? BSL) with false. cbv iota. rewrite NF.
+    change (115 =? PCT) with false. change (115 =? 99) with false. cbv iota.
+    change ((115 =? 43) || (115 =? 45) || (115 =? 32)) with false. change (is_dec 115) with false. cbv iota.
+    change ((115 =? 115) || (115 =? 98) || (115 =? 100) || (115 =? 105) || (115 =? 117) || (115 =? 111) || (115 =? 120)) with true.
+    cbv iota. destruct (take_arg args) as [[arg args']|]; [|reflexivity].
+    change (115 =? 98) with false. cbv iota. change (115 =? 115) with true. cbv iota. reflexivity.
+  Qed.
+
+  Lemma conv_step_c : forall fuel r fmts args, nonempty fmts = true ->
+    loop brec (S fuel) false (99 :: r) fmts args =
+    match take_arg args with
+    | None => GoPanic
+    | Some (arg, args') =>
+        match go_fprintf (tl fmts) 115 (VStr [match arg with [] => 0 | b :: _ => b end]) with
+        | None => Unmodelled
+        | Some o => emit o (loop brec fuel false r [] args')
+        end
+    end.
+  Proof.
+    intros fuel r fmts args NF. cbn [loop]. change (99 =? BSL) with false. cbv iota. rewrite NF.
+    change (99 =? PCT) with false. change (99 =? 99) with true. cbv iota. reflexivity.
+  Qed.
+
+  Lemma conv_step_b : forall fuel r fmts args, nonempty fmts = true ->
+    loop brec (S fuel) false (98 :: r) fmts args =
+    match take_arg args with
+    | None => GoPanic
+    | Some (arg, args') =>
+        match brec arg with
+        | Done o _ => emit o (loop brec fuel false r [] args')
+        | e => e
+        end
+    end.
+  Proof.
+    intros fuel r fmts args NF. cbn [loop]. change (98 =? BSL) with false. cbv iota. rewrite NF.
+    change (98 =? PCT) with false. change (98 =? 99) with false. cbv iota.
+    change ((98 =? 43) || (98 =? 45) || (98 =? 32)) with false. change (is_dec 98) with false. cbv iota.
+    change ((98 =? 115) || (98 =? 98) || (98 =? 100) || (98 =? 105) || (98 =? 117) || (98 =? 111) || (98 =? 120)) with true.
+    cbv iota. destruct (take_arg args) as [[arg args']|]; [|reflexivity].
+    change (98 =? 98) with true. cbv iota. reflexivity.
+  Qed.
+End DirSim.
+
+Definition nonnum (d : dirv) : bool := match d_conv d with CvS | CvB | CvC => true | _ => false end.
+Definition nonnum_items (items : list item) : bool :=
+  forallb (fun i => match i with IDir d => nonnum d | ILit _ => true end) items.
+
+(* Fprintf for %s with the directive's flags and width = C's padding *)
+Lemma fprintf_s : forall fl zs ws d s,
+  go_flags (fl ++ zs ++ ws) g0 = (flags_of d, ws) -> forallb is_dec ws = true -> (length ws <= 7)%nat ->
+  d_width d = parse_base 10 ws ->
+  (d_zero d && negb (d_minus d) && (0 <? d_width d)) = false ->
+  ((0 <? d_width d) = true -> rune_count s = len s) ->
+  go_fprintf (fl ++ zs ++ ws) 115 (VStr s) = Some (spec_pad (d_minus d) (d_width d) s).
+Proof.
+  intros fl zs ws d s GF HW L7 WD HZ HR. unfold go_fprintf. rewrite GF, (parsenum_width ws HW L7).
+  cbn [nonempty]. cbv iota. change (115 =? 115) with true. cbv iota. f_equal.
+  unfold flags_of, mkf. cbn [g_minus g_zero]. rewrite <- WD.
+  apply pad_eq; auto. intro E. destruct ws; [rewrite WD; reflexivity | discriminate].
+Qed.
+
+(* one directive, non-numeric conversions *)
+Lemma dir_sim : forall t d r, spec_directive t = Some (IDir d, r) -> nonnum d = true ->
+  forall args arg args' o1, take_arg (Some args) = Some (arg, Some args') -> spec_conv d arg = Some o1 ->
+  forall fuel, exists fuel',
+    loop format_b fuel false (PCT :: t) [] (Some args) = OutOfFuel \/
+    loop format_b fuel false (PCT :: t) [] (Some args) = emit o1 (loop format_b fuel' false r [] (Some args')).
+Proof.
+  intros t d r SD NN args arg args' o1 TA SC fuel.
+  destruct (spec_directive_shape t d r SD) as (fl & zs & ws & cv & T & HF & HZ & HW & L7 & W0 & CK & GF & WD).
+  subst t.
+  destruct (dir_prefix format_b fl zs ws (cv :: r) args HF HZ HW fuel) as [f1 [X|X]]; [exists 0%nat; left; exact X|].
+  rewrite X. clear X.
+  destruct f1; [exists 0%nat; left; reflexivity|]. exists f1. right.
+  unfold nonnum in NN. unfold conv_of in CK. unfold spec_conv in SC. cbv zeta in SC.
+  destruct (cv =? 115) eqn:E1.
+  { apply N.eqb_eq in E1; subst cv. inversion CK as [K]. rewrite conv_step_s by reflexivity.
+    rewrite TA. cbn [tl]. rewrite <- K in SC. cbv beta iota in SC. revert SC.
+    destruct (d_zero d && negb (d_minus d) && (0 <? d_width d)) eqn:Z; [intro SC; discriminate|].
+    destruct ((0 <? d_width d) && negb (is_ascii arg)) eqn:A; [intro SC; discriminate|]. intro SC. inversion SC; subst o1.
+    rewrite (fprintf_s fl zs ws d arg GF HW L7 WD Z); [reflexivity|]. intro P. rewrite P in A. simpl in A.
+    apply rune_count_ascii. destruct (is_ascii arg); [reflexivity|discriminate]. }
+  destruct (cv =? 98) eqn:E2.
+  { apply N.eqb_eq in E2; subst cv. inversion CK as [K]. rewrite conv_step_b by reflexivity.
+    rewrite TA. rewrite <- K in SC. cbv beta iota in SC. revert SC.
+    destruct (0 <? d_width d); [intro SC; discriminate|]. intro SC.
+    rewrite (format_b_spec MPercentB arg o1 eq_refl SC). reflexivity. }
+  destruct (cv =? 99) eqn:E3.
+  { apply N.eqb_eq in E3; subst cv. inversion CK as [K]. rewrite conv_step_c by reflexivity.
+    rewrite TA. cbn [tl]. rewrite <- K in SC. cbv beta iota in SC. revert SC.
+    destruct (d_zero d && negb (d_minus d) && (0 <? d_width d)) eqn:Z; [intro SC; discriminate|]. intro SC. inversion SC; subst o1.
+    rewrite (fprintf_s fl zs ws d _ GF HW L7 WD Z); [reflexivity|]. intros _. apply rune_count_1. }
+  exfalso. destruct ((cv =? 100) || (cv =? 105)); [inversion CK as [K]; rewrite <- K in NN; discriminate|].
+  destruct (cv =? 117); [inversion CK as [K]; rewrite <- K in NN; discriminate|].
+  destruct (cv =? 111); [inversion CK as [K]; rewrite <- K in NN; discriminate|].
+  destruct (cv =? 120); [inversion CK as [K]; rewrite <- K in NN; discriminate|]. discriminate.
+Qed.
+
+(* ------------------------------------------------------------------ one pass over the format *)
+Lemma round_sim : forall sf fmt items, spec_parse sf fmt = Some items -> nonnum_items items = true ->
+  forall args o rest, spec_round items args = Some (o, rest) ->
+  forall fuel, loop format_b fuel false fmt [] (Some args) = OutOfFuel \/
+               loop format_b fuel false fmt [] (Some args) = Done o (Some rest).
+Proof.
+  induction sf; intros fmt items SP NN args o rest SR fuel; simpl in SP; [discriminate|].
+  destruct fuel; [left; reflexivity|].
+  destruct fmt as [|c t].
+  - inversion SP; subst. simpl in SR. inversion SR; subst. right. reflexivity.
+  - destruct (c =? BSL) eqn:EB.
+    + apply N.eqb_eq in EB; subst c.
+      destruct (spec_escape MFormat t) as [[eo r]|] eqn:SE; [|discriminate].
+      destruct (spec_parse sf r) as [l|] eqn:SP'; [|discriminate]. inversion SP; subst items. clear SP.
+      simpl in NN. simpl in SR. destruct (spec_round l args) as [[o' a']|] eqn:SR'; [|discriminate].
+      inversion SR; subst. clear SR.
+      pose proof (esc_step format_b MFormat t eo r SE fuel [] (Some args)) as ST. cbn [mode_pb] in ST. rewrite ST.
+      destruct (IHsf r l SP' NN args o' rest SR' fuel) as [L|R]; rewrite ?L, ?R; [left|right]; reflexivity.
+    + destruct (c =? PCT) eqn:EP.
+      * apply N.eqb_eq in EP; subst c.
+        destruct (spec_directive t) as [[it r]|] eqn:SD; [|discriminate].
+        destruct (spec_parse sf r) as [l|] eqn:SP'; [|discriminate]. inversion SP; subst items. clear SP.
+        destruct it as [bs|d].
+        -- apply spec_directive_lit in SD as [-> ->].
+           simpl in NN. simpl in SR. destruct (spec_round l args) as [[o' a']|] eqn:SR'; [|discriminate].
+           inversion SR; subst. clear SR.
+           rewrite pct_start. destruct fuel; [left; reflexivity|].
+           cbn [loop]. change (PCT =? BSL) with false. cbv iota. cbn [nonempty]. cbv iota.
+           change (PCT =? PCT) with true. cbv iota.
+           destruct (IHsf r l SP' NN args o' rest SR' fuel) as [L|R]; rewrite ?L, ?R; [left|right]; reflexivity.
+        -- simpl in NN. apply andb_prop in NN as [ND NN].
+           cbn [spec_round] in SR.
+           destruct args as [|a ta].
+           ++ destruct (spec_conv d []) as [o1|] eqn:SC; [|discriminate].
+              destruct (spec_round l []) as [[o' a']|] eqn:SR'; [|discriminate]. inversion SR; subst. clear SR.
+              destruct (dir_sim t d r SD ND [] [] [] o1 eq_refl SC (S fuel)) as [f' [X|X]]; [left; exact X|].
+              rewrite X. destruct (IHsf r l SP' NN [] o' rest SR' f') as [L|R]; rewrite ?L, ?R; [left|right]; reflexivity.
+           ++ destruct (spec_conv d a) as [o1|] eqn:SC; [|discriminate].
+              destruct (spec_round l ta) as [[o' a']|] eqn:SR'; [|discriminate]. inversion SR; subst. clear SR.
+              destruct (dir_sim t d r SD ND (a :: ta) a ta o1 eq_refl SC (S fuel)) as [f' [X|X]]; [left; exact X|].
+              rewrite X. destruct (IHsf r l SP' NN ta o' rest SR' f') as [L|R]; rewrite ?L, ?R; [left|right]; reflexivity.
+      * destruct (spec_parse sf t) as [l|] eqn:SP'; [|discriminate]. inversion SP; subst items. clear SP.
+        simpl in NN. simpl in SR. destruct (spec_round l args) as [[o' a']|] eqn:SR'; [|discriminate].
+        inversion SR; subst. clear SR.
+        cbn [loop]. rewrite EB. cbn [nonempty andb]. cbv iota. rewrite EP. cbv iota.
+        destruct (IHsf t l SP' NN args o' rest SR' fuel) as [L|R]; rewrite ?L, ?R; [left|right]; reflexivity.
+Qed.
+
+Lemma spec_round_suffix : forall items args o rest, spec_round items args = Some (o, rest) ->
+  exists used, args = used ++ rest /\ (has_dir items = false -> used = []) /\
+               (has_dir items = true -> args <> [] -> used <> []).
+Proof.
+  induction items as [|it l IH]; intros args o rest H; simpl in H.
+  - inversion H; subst. exists []. repeat split; auto. discriminate.
+  - destruct it as [bs|d].
+    + destruct (spec_round l args) as [[o' a']|] eqn:E; [|discriminate]. inversion H; subst.
+      destruct (IH _ _ _ E) as (u & A & B & C). exists u. simpl. auto.
+    + destruct args as [|a t].
+      * destruct (spec_conv d []); [|discriminate].
+        destruct (spec_round l []) as [[o' a']|] eqn:E; [|discriminate]. inversion H; subst.
+        destruct (IH _ _ _ E) as (u & A & B & C). exists u. split; [exact A|]. split.
+        -- simpl. discriminate.
+        -- intros _ X. exfalso. apply X. reflexivity.
+      * destruct (spec_conv d a); [|discriminate].
+        destruct (spec_round l t) as [[o' a']|] eqn:E; [|discriminate]. inversion H; subst.
+        destruct (IH _ _ _ E) as (u & A & B & C). exists (a :: u). subst t. split; [reflexivity|]. split.
+        -- simpl. discriminate.
+        -- intros _ _. discriminate.
+Qed.
+
+Lemma format_of_round : forall fmt items, spec_parse (S (length fmt)) fmt = Some items -> nonnum_items items = true ->
+  forall args o rest, spec_round items args = Some (o, rest) ->
+  format fmt (Some args) = FOk o (length args - length rest).
+Proof.
+  intros fmt items SP NN args o rest SR. unfold format, format_into.
+  destruct (round_sim _ fmt items SP NN args o rest SR (S (S (length fmt)))) as [L|R].
+  - exfalso. revert L. apply loop_no_oof; [apply format_b_no_oof | lia].
+  - rewrite R. reflexivity.
+Qed.
+
+Lemma rounds_sim : forall fmt items, spec_parse (S (length fmt)) fmt = Some items -> nonnum_items items = true ->
+  forall fuel args o, spec_rounds fuel items args = Some o -> printf_rounds fuel fmt args = BOut o 0.
+Proof.
+  intros fmt items SP NN. induction fuel; intros args o H; simpl in H; [discriminate|].
+  destruct (spec_round items args) as [[o1 rest]|] eqn:SR; [|discriminate].
+  cbn [printf_rounds]. rewrite (format_of_round fmt items SP NN args o1 rest SR).
+  destruct (spec_round_suffix _ _ _ _ SR) as (used & A & B & C).
+  assert (N : (length args - length rest = length used)%nat) by (subst args; rewrite app_length; lia).
+  rewrite N.
+  assert (LT : (length args <? length used)%nat = false) by (apply Nat.ltb_ge; subst args; rewrite app_length; lia).
+  rewrite LT.
+  assert (SK : skipn (length used) args = rest).
+  { subst args. rewrite skipn_app, skipn_all, Nat.sub_diag. reflexivity. }
+  rewrite SK.
+  assert (ST : ((length used =? 0)%nat || negb (nonempty rest)) = (negb (has_dir items) || negb (nonempty rest))).
+  { destruct rest as [|r0 rest']; [simpl; rewrite !orb_true_r; reflexivity|]. simpl. rewrite !orb_false_r.
+    destruct (has_dir items) eqn:HD; simpl.
+    - assert (used <> []) by (apply C; auto; subst args; destruct used; discriminate).
+      destruct used; [congruence|reflexivity].
+    - rewrite (B eq_refl). reflexivity. }
+  rewrite ST.
+  destruct (negb (has_dir items) || negb (nonempty rest)).
+  - inversion H; subst. reflexivity.
+  - destruct (spec_rounds fuel items rest) as [o'|] eqn:E; [|discriminate]. inversion H; subst.
+    rewrite (IHfuel rest o' E). reflexivity.
+Qed.
+
+Theorem printf_matches_nonnum : forall fmt args out st items,
+  spec_printf fmt args = Some (out, st) ->
+  spec_parse (S (length fmt)) fmt = Some items -> nonnum_items items = true ->
+  printf_builtin (fmt :: args) = BOut out st.
+Proof.
+  intros fmt args out st items H SP NN. unfold spec_printf in H.
+  destruct (match fmt with c :: _ => c =? 45 | [] => false end); [discriminate|].
+  rewrite SP in H.
+  destruct (spec_rounds (S (length args)) items args) as [o|] eqn:E; [|discriminate]. inversion H; subst.
+  unfold printf_builtin. apply (rounds_sim fmt items SP NN _ _ _ E).
+Qed.
+
+(* non-vacuity: printf '%-5s|%c\101%b%%\n' ab xyz 'q\0101' r  is inside the scope, reuses the format once *)
+Definition ex_fmt : str := [37;45;53;115;124;37;99;92;49;48;49;37;98;37;37;92;110].
+Definition ex_args : list str := [[97;98]; [120;121;122]; [113;92;48;49;48;49]; [114]].
+Example printf_matches_nonnum_nonvacuous :
+  exists items out, spec_parse (S (length ex_fmt)) ex_fmt = Some items /\ nonnum_items items = true /\
+    spec_printf ex_fmt ex_args = Some (out, 0) /\ has_dir items = true /\ out <> [].
+Proof. eexists; eexists. vm_compute. repeat split; try reflexivity. discriminate. Qed.
